@@ -3509,7 +3509,9 @@ impl KotoVm {
                     }
                 }
                 (Some(precision), None) if n.is_f64() || n.is_i64_in_f64_range() => {
-                    format!("{:.*}", precision as usize, f64::from(n))
+                    // Formatting panics when the precision is larger than u16::MAX
+                    let precision = (precision as usize).min(u16::MAX as usize);
+                    format!("{:.*}", precision, f64::from(n))
                 }
                 _ => n.to_string(),
             },
